@@ -125,13 +125,34 @@ def pq_text(pq):
             "    x = Pq.kq * time;\n    y = x + Pq.kr;\n  end Mq;\nend Pq;\n" % (pq["kq"], pq["kr"]))
 
 
+def rq_record(rq):
+    return "  record Rq\n    Real a;\n    Real b;\n%s  end Rq;\n" % "".join("    Integer %s;\n" % n for n in rq["fields"])
+
+
+def rq_base(rq):
+    return "  model Baseq\n    Real y0;\n%s  equation\n    y0 = %d;\n%s  end Baseq;\n" % (
+        "".join("    Integer %s;\n" % n for n in rq["base_extra"]), rq["base_k"], "".join("    %s = 5;\n" % n for n in rq["base_extra"]))
+
+
+def rq_text(rq):
+    """a function with a record-typed formal (the record's package comes after the function's), and a model two
+    packages deep that reaches its base class and a record through enclosing scopes."""
+    if not rq:
+        return ""
+    return ("\npackage Pfq\n  function fr\n    input Libq.Rq r;\n    output Real y;\n  algorithm\n    y := r.a + r.b;\n  end fr;\n"
+            "  model Mr\n    Libq.Rq q;\n    Real z;\n  equation\n    q.a = 1;\n    q.b = 2;\n    z = fr(q);\n  end Mr;\nend Pfq;\n"
+            "package Appq\n" + rq_base(rq) +
+            "  package Subq\n    model Mn\n      extends Baseq;\n      Libq.Rq p;\n      Real w;\n    equation\n      w = p.a + y0;\n    end Mn;\n  end Subq;\nend Appq;\n"
+            "package Libq\n" + rq_record(rq) + "end Libq;\n")
+
+
 def handle_text(h):
-    return mlib.print_library(h["lib"]) + fn_text(h.get("fn")) + pq_text(h.get("pq"))
+    return mlib.print_library(h["lib"]) + fn_text(h.get("fn")) + pq_text(h.get("pq")) + rq_text(h.get("rq"))
 
 
-def flatten_desc(lib, cname, fn=None, pq=None):
+def flatten_desc(lib, cname, fn=None, pq=None, rq=None):
     from pymoca import parser
-    text = mlib.print_library(lib) + fn_text(fn) + pq_text(pq)
+    text = mlib.print_library(lib) + fn_text(fn) + pq_text(pq) + rq_text(rq)
     t = parser.parse(text, bypass_cache=True)
     if t is None:
         return ("exc", "SyntaxError")
@@ -190,7 +211,7 @@ def check_copy_invariant(src, cp):
 
 
 SNIPPET_COUNTER = [0]
-EDIT_KINDS = ("replace_constant", "add_symbol", "remove_symbol", "add_equation", "remove_equation", "add_class", "remove_class", "transplant_class", "edit_function")
+EDIT_KINDS = ("add_record_field", "replace_record", "replace_base", "replace_constant", "add_symbol", "remove_symbol", "add_equation", "remove_equation", "add_class", "remove_class", "transplant_class", "edit_function")
 
 
 def parse_snippet(text):
@@ -206,9 +227,12 @@ class History:
         self.ctx, self.r = ctx, rng
         fn = {"k": rng.randint(2, 9), "extra_syms": [], "redecl": rng.random() < 0.5, "elem_extra": []} if rng.random() < 0.4 else None
         pq = {"kq": rng.randint(2, 9), "kr": rng.randint(2, 9)} if rng.random() < 0.35 else None
-        self.text0 = mlib.print_library(lib) + fn_text(fn) + pq_text(pq)
+        rq = {"fields": [], "base_k": rng.randint(1, 9), "base_extra": []} if rng.random() < 0.35 else None
+        self.text0 = mlib.print_library(lib) + fn_text(fn) + pq_text(pq) + rq_text(rq)
         t0 = parser.parse(self.text0, bypass_cache=True)
-        self.handles = [{"tree": t0, "lib": copy.deepcopy(lib), "depth": 0, "label": "original", "src": None, "fn": fn, "pq": pq}]
+        self.handles = [{"tree": t0, "lib": copy.deepcopy(lib), "depth": 0, "label": "original", "src": None, "fn": fn, "pq": pq, "rq": rq}]
+        if rq:
+            tags.add("library-with-record-typed-formal-and-classes-reached-through-enclosing-scopes")
         if pq:
             tags.add("library-with-package-constants-referenced-by-dotted-name")
         if fn:
@@ -229,6 +253,28 @@ class History:
             return self.op_copy(0)
         if k < 0.18 and len(self.handles) < 5:
             return self.op_copy(self.pick_handle())
+        rqs = [i for i, h in enumerate(self.handles) if h.get("rq")]
+        if rqs and r.random() < 0.12:
+            # use (flatten on the handle's own tree), then copy or not, then replace a class the model reaches through
+            # an enclosing scope / add a field to the record of the function's formal, then flatten everywhere
+            hi = r.choice(rqs)
+            for cname in r.sample(["Pfq.Mr", "Appq.Subq.Mn"], r.randint(1, 2)):
+                bad = self.op_flatten(hi, cname, direct=True)
+                if bad:
+                    return bad
+            target = hi
+            if r.random() < 0.5 and len(self.handles) < 5 and self.handles[hi]["depth"] < 3:
+                self.op_copy(hi)
+                target = len(self.handles) - 1
+            bad = self.op_edit(target, kind=r.choice(["add_record_field", "replace_record", "replace_base"]))
+            if bad:
+                return bad
+            for h2 in {hi, target}:
+                for cname in ("Pfq.Mr", "Appq.Subq.Mn"):
+                    bad = self.op_flatten(h2, cname, direct=r.random() < 0.5)
+                    if bad:
+                        return bad
+            return None
         if k < 0.52:
             return self.op_edit(self.pick_handle())
         if k < 0.60 and len(self.handles) >= 2:
@@ -283,7 +329,7 @@ class History:
         new = copy.deepcopy(h["tree"])
         label = {0: "copy", 1: "copy-of-copy", 2: "copy-of-copy-of-copy"}[h["depth"]]
         self.handles.append({"tree": new, "lib": copy.deepcopy(h["lib"]), "depth": h["depth"] + 1, "label": label, "src": hi,
-                             "fn": copy.deepcopy(h.get("fn")), "pq": copy.deepcopy(h.get("pq"))})
+                             "fn": copy.deepcopy(h.get("fn")), "pq": copy.deepcopy(h.get("pq")), "rq": copy.deepcopy(h.get("rq"))})
         self.ops.append(["deepcopy", hi])
         self.has_copy = True
         self.ctx.cover("op:deepcopy:" + label)
@@ -304,7 +350,40 @@ class History:
             return None
         kind = kind or r.choice(["add_symbol", "add_symbol", "add_equation", "add_equation", "remove_equation", "remove_symbol",
                                  "add_class", "remove_class"] + (["edit_function"] * 3 if h.get("fn") else []) + (
-                                     ["replace_constant"] * 3 if h.get("pq") else []))
+                                     ["replace_constant"] * 3 if h.get("pq") else []) + (
+                                         ["add_record_field", "replace_record", "replace_base"] * 2 if h.get("rq") else []))
+        if kind in ("add_record_field", "replace_record", "replace_base"):
+            if not h.get("rq"):
+                return None
+            rq = h["rq"]
+            self.fresh += 1
+            self.ops.append([kind, hi, "Libq.Rq" if "record" in kind else "Appq.Baseq"])
+            try:
+                if kind == "add_record_field":
+                    nm = "nq_%d" % self.fresh
+                    snip = parse_snippet("record X\n  Integer %s;\nend X;\n" % nm)
+                    tree.classes["Libq"].classes["Rq"].add_symbol(snip.classes["X"].symbols[nm])
+                    rq["fields"].append(nm)
+                elif kind == "replace_record":
+                    # the class object is replaced by another one of the same name
+                    rq["fields"] = ["kq_%d" % self.fresh]
+                    snip = parse_snippet("package X\n" + rq_record(rq) + "end X;\n")
+                    lib_ = tree.classes["Libq"]
+                    lib_.remove_class(lib_.classes["Rq"])
+                    lib_.add_class(snip.classes["X"].classes["Rq"])
+                else:
+                    rq["base_k"] = r.randint(10, 99)
+                    rq["base_extra"] = ["nb_%d" % self.fresh]
+                    snip = parse_snippet("package X\n" + rq_base(rq) + "end X;\n")
+                    app = tree.classes["Appq"]
+                    app.remove_class(app.classes["Baseq"])
+                    app.add_class(snip.classes["X"].classes["Baseq"])
+            except Exception as e:
+                return ("C06:edit:%s:raises:%s" % (kind, type(e).__name__), "%s on handle %d (%s) raised %r" % (kind, hi, h["label"], e))
+            self.has_edit = True
+            self.ctx.monitor("edits_applied")
+            self.ctx.cover("op:%s:on-%s" % (kind, h["label"]))
+            return None
         if kind == "replace_constant":
             if not h.get("pq"):
                 return None
@@ -451,10 +530,10 @@ class History:
                         kind, cname, hi, h["label"], got[0] if got[0] == "ok" else got[1], exp[0] if exp[0] == "ok" else exp[1]))
         return None
 
-    def op_flatten(self, hi, cname=None):
+    def op_flatten(self, hi, cname=None, direct=None):
         r = self.r
         h = self.handles[hi]
-        cands = [cname] if cname else mlib.flattenable_classes(h["lib"]) + (["UsesFq"] * 3 if h.get("fn") else []) + (["Pq.Mq"] * 3 if h.get("pq") else []) + (
+        cands = [cname] if cname else mlib.flattenable_classes(h["lib"]) + (["UsesFq"] * 3 if h.get("fn") else []) + (["Pq.Mq"] * 3 if h.get("pq") else []) + (["Pfq.Mr", "Appq.Subq.Mn"] * 3 if h.get("rq") else []) + (
             ["System", "System", "Lab", "Heater"] if (h.get("fn") or {}).get("redecl") else [])
         # sometimes ask for a class that only exists in another handle
         others = [c for o in self.handles for c in mlib.flattenable_classes(o["lib"]) if c.startswith("Kq")]
@@ -464,10 +543,10 @@ class History:
             return None
         cname = r.choice(cands)
         self.ops.append(["flatten", hi, cname])
-        direct = r.random() < 0.6
+        direct = r.random() < 0.6 if direct is None else direct
         self.ops[-1].append("direct" if direct else "on-clone")
         got = flatten_handle(h["tree"], cname, direct)
-        exp = flatten_desc(h["lib"], cname, h.get("fn"), h.get("pq"))
+        exp = flatten_desc(h["lib"], cname, h.get("fn"), h.get("pq"), h.get("rq"))
         self.ctx.monitor("flatten_comparisons")
         self.ctx.cover("op:flatten:on-" + h["label"])
         if got != exp:
